@@ -166,10 +166,12 @@ type world struct {
 	sent     []sentReq
 	pushes   []pushTuple
 	uids     map[*channel.Channel]int
+	byUid    map[int]*channel.Channel // retained handles: every channel object ever handed out, by its number
 	slots    map[string]string
 	race     *raceOp
 	onAdd    func(id uint32)
 	onRemove func(id uint32)
+	nosess   bool // the issuing service has no "sessions" component
 }
 
 var (
@@ -188,7 +190,7 @@ type frontEnd struct {
 	timers     *timer.Mgr
 }
 
-func newFrontEnd(nw *world, name string) *frontEnd {
+func newFrontEnd(nw *world, name string, attach bool) *frontEnd {
 	fe := &frontEnd{name: name, fakes: map[uint32]*fakeSession{}, timers: timer.NewTimerMgr()}
 	fe.ns = service.NewService()
 	fe.ns.Name = name
@@ -197,7 +199,9 @@ func newFrontEnd(nw *world, name string) *frontEnd {
 	fe.ns.Context = &sendCtx{w: nw, self: actor.NewPID("h:1", name)}
 	fe.ns.SetRunService(&runservice.StandardRunService{TimerMgr: fe.timers})
 	fe.sessions = impls.NewClientSessions(name)
-	fe.ns.AddComponent("sessions", impls.NewSessionsComponent(fe.sessions))
+	if attach { // a back-end service has no "sessions" component: pushLocal declines and the directory is asked
+		fe.ns.AddComponent("sessions", impls.NewSessionsComponent(fe.sessions))
+	}
 	return fe
 }
 
@@ -241,7 +245,7 @@ var (
 	topoOnce sync.Once
 )
 
-func newWorld(local, second string) *world {
+func newWorld(local, second string, nosess ...bool) *world {
 	topoOnce.Do(func() {
 		app.Node.GetCluster().UpdateClusterTopology([]*cluster.Member{{Id: "c16@n1", Host: "h", Port: 1, State: 1,
 			Services: []string{"front.f1", "front.f2", "front.f3"}}})
@@ -253,11 +257,12 @@ func newWorld(local, second string) *world {
 			}
 		}
 	}
-	nw := &world{local: local, uids: map[*channel.Channel]int{}, slots: map[string]string{}}
-	nw.a = newFrontEnd(nw, local)
+	nw := &world{local: local, uids: map[*channel.Channel]int{}, byUid: map[int]*channel.Channel{}, slots: map[string]string{}}
+	nw.nosess = len(nosess) > 0 && nosess[0]
+	nw.a = newFrontEnd(nw, local, !nw.nosess)
 	nw.cur = nw.a
 	if second != "" && second != local {
-		nw.b = newFrontEnd(nw, second)
+		nw.b = newFrontEnd(nw, second, true)
 	}
 	nw.ns = nw.a.ns
 	nw.a.sessions.SetHandler(&handler{w: nw})
@@ -274,6 +279,7 @@ func (w *world) uid(c *channel.Channel) string {
 	if !ok {
 		u = len(w.uids) + 1
 		w.uids[c] = u
+		w.byUid[u] = c
 	}
 	return fmt.Sprintf("ch=%d", u)
 }
@@ -429,7 +435,7 @@ func exec(op string) string {
 		if w.b != nil {
 			second = w.b.name
 		}
-		w = newWorld(w.local, second)
+		w = newWorld(w.local, second, w.nosess)
 	}
 	return obs
 }
@@ -467,7 +473,8 @@ func guarded(ws []string) string {
 				return "bad-op"
 			}
 			second, _ := hx.KV(ws, "second")
-			w = newWorld(lf, second)
+			ns, _ := hx.KV(ws, "nosess")
+			w = newWorld(lf, second, ns == "1")
 			return "ok"
 		case "addch":
 			c, ok := hx.KV(ws, "ch")
@@ -658,6 +665,40 @@ func guarded(ws []string) string {
 				return "missing " + after + " " + w.showDl()
 			}
 			return "ok " + after + " " + w.showDl()
+		case "hjoin", "hleave", "hbcast", "hfree":
+			// operations through a retained *Channel (kept by the caller of AddChannel / AddToChannel /
+			// AllocTempChannel), whether or not its name is still bound to it
+			hn, ok := u32(ws, "h")
+			if !ok {
+				return "bad-op"
+			}
+			ch := w.byUid[int(hn)]
+			switch ws[0] {
+			case "hjoin", "hleave":
+				f, ok2 := hx.KV(ws, "front")
+				id, ok3 := u32(ws, "id")
+				if !ok2 || !ok3 || ch == nil {
+					return "bad-op"
+				}
+				if ws[0] == "hjoin" {
+					ch.Add(f, id)
+				} else {
+					ch.Leave(f, id)
+				}
+				return "ok"
+			case "hbcast":
+				route, ok2 := hx.KV(ws, "route")
+				msg, ok3 := hx.KV(ws, "msg")
+				if !ok2 || !ok3 || ch == nil {
+					return "bad-op"
+				}
+				return w.bcast(ch, route, msg)
+			}
+			if ch == nil {
+				return "bad-op"
+			}
+			w.svc.FreeTempChannel(ch)
+			return "ok"
 		case "alloctemp":
 
 			k, ok := hx.KV(ws, "slot")
@@ -729,6 +770,10 @@ func guarded(ws []string) string {
 			if ws[0] == "spush" {
 				w.cur.sessions.PushMsg(m)
 				return w.showDl()
+			}
+			if w.cur == w.a && w.nosess {
+				// sys.pushmsg at a service without the component: not exercised (unchecked type assertion in Entry.PushMsg)
+				return "bad-op"
 			}
 			cb := 0
 			ctx := &as.RemoteContext{ActorContext: fakeCtx{a: &owner{ns: w.cur.ns}}}
@@ -1345,6 +1390,185 @@ func rangeOrIds(c, f string, sel []uint32) string {
 	return fmt.Sprintf("leaveids ch=%s front=%s ids=%s", c, f, showIds(sel))
 }
 
+// handleCase: callers that keep the *Channel they were handed. Names are deleted and re-created under
+// the holders' feet; joins, leaves and broadcasts go through stale and through still-bound handles and
+// by name, interleaved; FreeTempChannel is called on bound, stale and re-bound objects; every case ends
+// with a broadcast through every handle and on every name.
+func handleCase(h *hx.T, g *gen, run func(string), idx int) {
+	r := h.R
+	g.slots, g.slotN = nil, 0
+	local := "f1"
+	if idx%5 == 4 {
+		local = "f2"
+	}
+	if idx%4 == 3 {
+		run("reset local=" + local + " second=f3")
+		run("sadd at=b")
+		run("sadd at=b")
+	} else {
+		run("reset local=" + local)
+	}
+	for i, k := 0, r.Intn(4); i < k; i++ {
+		run("sadd")
+	}
+	names := []string{"a", "b"}
+	nh := func() int { return len(w.uids) }
+	handle := func() int { // mostly an existing handle; now and then the next one (not handed out yet) or 0
+		if nh() == 0 || r.Intn(25) == 0 {
+			if r.Intn(2) == 0 {
+				return 0
+			}
+			return nh() + 1
+		}
+		return 1 + r.Intn(nh())
+	}
+	bound := func(hn int) bool {
+		c := w.byUid[hn]
+		return c != nil && w.svc.GetChannel(c.GetName()) == c
+	}
+	kind := func(hn int) string {
+		c := w.byUid[hn]
+		switch {
+		case c == nil:
+			return "unknown"
+		case bound(hn):
+			return "bound"
+		case w.svc.GetChannel(c.GetName()) != nil:
+			return "stale-name-rebound"
+		}
+		return "stale"
+	}
+	// a first object with a few members on two fronts, so that the stale handle has something to say
+	c0 := names[r.Intn(2)]
+	for i, k := 0, 2+r.Intn(4); i < k; i++ {
+		run(fmt.Sprintf("join ch=%s front=%s id=%d", c0, frontNames[r.Intn(3)], 2+r.Intn(5)))
+	}
+	for i, k := 0, 12+r.Intn(30); i < k; i++ {
+		switch x := r.Intn(40); {
+		case x < 4:
+			h.Count("handle.delete-name")
+			run("delch ch=" + names[r.Intn(2)])
+		case x < 9:
+			run(fmt.Sprintf("join ch=%s front=%s id=%d", names[r.Intn(2)], frontNames[r.Intn(3)], 2+r.Intn(5)))
+		case x < 11:
+			run(fmt.Sprintf("leave ch=%s front=%s id=%d", names[r.Intn(2)], frontNames[r.Intn(3)], 2+r.Intn(5)))
+		case x < 13:
+			run("addch ch=" + names[r.Intn(2)])
+		case x < 16:
+			run(fmt.Sprintf("bcast ch=%s route=n%d msg=m%d", names[r.Intn(2)], r.Intn(3), r.Intn(1000)))
+		case x < 23:
+			hn := handle()
+			h.Count("handle.join." + kind(hn))
+			run(fmt.Sprintf("hjoin h=%d front=%s id=%d", hn, frontNames[r.Intn(3)], 2+r.Intn(5)))
+		case x < 28:
+			hn := handle()
+			id := uint32(2 + r.Intn(5))
+			if c := w.byUid[hn]; c != nil && r.Intn(3) != 0 { // aim at a listed id (first / last / any)
+				var all [][]string
+				c.Range(func(k, v interface{}) bool {
+					for _, m := range v.(*channel.FrontGroup).NetIds {
+						all = append(all, []string{k.(string), strconv.FormatUint(uint64(m), 10)})
+					}
+					return true
+				})
+				sort.Slice(all, func(i, j int) bool { return all[i][0]+"/"+all[i][1] < all[j][0]+"/"+all[j][1] })
+				if len(all) > 0 {
+					t := all[r.Intn(len(all))]
+					h.Count("handle.leave." + kind(hn) + ".listed")
+					run(fmt.Sprintf("hleave h=%d front=%s id=%s", hn, t[0], t[1]))
+					continue
+				}
+			}
+			h.Count("handle.leave." + kind(hn))
+			run(fmt.Sprintf("hleave h=%d front=%s id=%d", hn, frontNames[r.Intn(3)], id))
+		case x < 35:
+			hn := handle()
+			h.Count("handle.bcast." + kind(hn))
+			run(fmt.Sprintf("hbcast h=%d route=h%d msg=m%d", hn, r.Intn(3), r.Intn(1000)))
+		case x < 37:
+			hn := handle()
+			h.Count("handle.free." + kind(hn))
+			run(fmt.Sprintf("hfree h=%d", hn))
+		case x < 38:
+			h.Count("op.alloctemp")
+			g.slotN++
+			k := strconv.Itoa(g.slotN)
+			g.slots = append(g.slots, k)
+			run("alloctemp slot=" + k)
+		case x < 39:
+			if len(g.slots) > 0 {
+				run("freetemp slot=" + g.slots[r.Intn(len(g.slots))])
+			} else {
+				run("sadd")
+			}
+		default:
+			if r.Intn(2) == 0 {
+				run("sadd")
+			} else {
+				run(fmt.Sprintf("sdel id=%d", 2+r.Intn(4)))
+			}
+		}
+	}
+	for hn := 1; hn <= nh(); hn++ {
+		h.Count("handle.final-bcast." + kind(hn))
+		run(fmt.Sprintf("hbcast h=%d route=end msg=fin", hn))
+	}
+	for _, c := range names {
+		run(fmt.Sprintf("bcast ch=%s route=end msg=fin", c))
+	}
+	h.Count("case.retained-handles")
+}
+
+// backendCase: the channel service is owned by a service without a "sessions" component (a back-end
+// service). Nothing is delivered in place; every front the directory knows that has members gets one
+// sys.pushmsg — the issuer's own name included when it is used as a front id; unknown names get nothing.
+func backendCase(h *hx.T, g *gen, run func(string), idx int) {
+	r := h.R
+	g.slots, g.slotN = nil, 0
+	local := []string{"f1", "f2", "chat-1", "f3"}[idx%4]
+	second := []string{"f2", "f1", "f3", ""}[idx%4]
+	reset := "reset local=" + local + " nosess=1"
+	if second != "" {
+		reset += " second=" + second
+	}
+	run(reset)
+	for i, k := 0, r.Intn(3); i < k; i++ {
+		run("sadd") // connections registered in a table the service does not expose as a component
+	}
+	if second != "" {
+		for i, k := 0, 1+r.Intn(4); i < k; i++ {
+			run("sadd at=b")
+		}
+	}
+	fronts := []string{"f1", "f2", "f3", local, "nowhere"}
+	for i, k := 0, 8+r.Intn(20); i < k; i++ {
+		switch x := r.Intn(20); {
+		case x < 8:
+			f := fronts[r.Intn(len(fronts))]
+			if f == local {
+				h.Count("backend.join-own-name")
+			}
+			run(fmt.Sprintf("join ch=%s front=%s id=%d", chanNames[r.Intn(2)], f, 2+r.Intn(5)))
+		case x < 11:
+			run(fmt.Sprintf("leave ch=%s front=%s id=%d", chanNames[r.Intn(2)], fronts[r.Intn(len(fronts))], 2+r.Intn(5)))
+		case x < 16:
+			h.Count("backend.bcast")
+			run(fmt.Sprintf("bcast ch=%s route=k%d msg=m%d", chanNames[r.Intn(2)], r.Intn(3), r.Intn(1000)))
+		case x < 17 && len(w.uids) > 0:
+			run(fmt.Sprintf("hbcast h=%d route=k msg=m%d", 1+r.Intn(len(w.uids)), r.Intn(1000)))
+		case x < 18:
+			run("delch ch=" + chanNames[r.Intn(2)])
+		case x < 19 && second != "":
+			run(g.pushOp("syspush") + " at=b")
+		default:
+			run(g.pushOp("spush"))
+		}
+	}
+	run("bcast ch=a route=end msg=fin")
+	run("bcast ch=b route=end msg=fin")
+	h.Count("case.issuer-without-sessions")
+}
+
 func (g *gen) pushOp(kind string) string {
 	r := g.h.R
 	n := r.Intn(7)
@@ -1357,7 +1581,7 @@ func (g *gen) pushOp(kind string) string {
 
 func countObs(h *hx.T, op, obs string) {
 	switch {
-	case strings.HasPrefix(op, "bcast"):
+	case strings.HasPrefix(op, "bcast"), strings.HasPrefix(op, "hbcast"):
 		if obs == "bad-op" {
 			return
 		}
@@ -1475,6 +1699,13 @@ func TestRun(t *testing.T) {
 	for i := 0; i < n; i++ {
 		runCase(h, g, run)
 	}
+	// last, so that the cases above draw the same random numbers as before this family existed
+	for i, k := 0, hx.EnvInt("VERIF_HANDLE", 80); i < k; i++ {
+		handleCase(h, g, run, i)
+	}
+	for i, k := 0, hx.EnvInt("VERIF_BACKEND", 40); i < k; i++ {
+		backendCase(h, g, run, i)
+	}
 }
 
 // TestExhaustive: every history of length <= VERIF_DEPTH over a 7-letter alphabet on
@@ -1509,4 +1740,42 @@ func TestExhaustive(t *testing.T) {
 	}
 	rec(nil)
 	h.Stats[fmt.Sprintf("exhaustive.histories.len<=%d.alphabet7", depth)] = cases
+}
+
+// TestHandlesExhaustive: every history of length <= VERIF_DEPTH over a 7-letter alphabet mixing by-name
+// operations on one name with operations through the handles of the first two objects created
+// (join by name, delete, re-create, Add / Leave through handle 1, Add through handle 2, FreeTempChannel
+// of handle 1), each followed by a broadcast through both handles and by name.
+func TestHandlesExhaustive(t *testing.T) {
+	prev := channel.GetPushImpl()
+	defer channel.SetPushImpl(prev)
+	h := hx.Open()
+	defer h.Close()
+	w = newWorld("", "")
+	alpha := []string{
+		"join ch=a front=f1 id=2", "delch ch=a", "addch ch=a", "hjoin h=1 front=f1 id=3", "hleave h=1 front=f1 id=2",
+		"hjoin h=2 front=f1 id=2", "hfree h=1",
+	}
+	depth := hx.EnvInt("VERIF_DEPTH", 4)
+	cases := 0
+	var rec func(prefix []string)
+	rec = func(prefix []string) {
+		h.Emit("reset local=f1", exec("reset local=f1"))
+		h.Emit("sadd", exec("sadd"))
+		for _, op := range prefix {
+			h.Emit(op, exec(op))
+		}
+		for _, op := range []string{"hbcast h=1 route=r msg=m", "hbcast h=2 route=r msg=m", "bcast ch=a route=r msg=m"} {
+			h.Emit(op, exec(op))
+		}
+		cases++
+		if len(prefix) == depth {
+			return
+		}
+		for _, a := range alpha {
+			rec(append(prefix[:len(prefix):len(prefix)], a))
+		}
+	}
+	rec(nil)
+	h.Stats[fmt.Sprintf("exhaustive.handle-histories.len<=%d.alphabet7", depth)] = cases
 }
